@@ -1,6 +1,9 @@
 use crate::store::{ObservationMetricErr, Results};
 use crate::track::{ObservationAttributes, ObservationMetricOk};
+#[cfg(not(similari_verif))]
 use crossbeam::channel::Receiver;
+#[cfg(similari_verif)]
+use crate::verif::crossbeam::channel::Receiver;
 use std::vec::IntoIter;
 
 /// Represents the response from the track distance computation.
